@@ -524,6 +524,21 @@ def rule_d6(ctx, facts, rule="D6"):
                             and not dominated_by_edge(b, rc.point, [oke]):
                         stale_root = rc
             rel = {y.point for y in b.calls if is_std_atomic(y) in ("fetch_add", "fetch_sub") and LS in receiver_field(b, y, 0)}
+            # RAII: the drop (scope end, mem::drop) of a value whose Drop impl gives the reader count back is a release as well
+            raii = set()
+            for db in facts.bodies:
+                if db.impl and db.impl.get("trait") in ("std::ops::Drop", "core::ops::Drop") and any(
+                        is_std_atomic(y) in ("fetch_add", "fetch_sub") and LS in receiver_field(db, y, 0) for y in db.calls):
+                    raii.add(db.impl.get("self_head"))
+            if raii:
+                for y in b.calls:
+                    if callee_str(y).endswith("mem::drop") and y.args and op_root(y.args[0]) is not None and \
+                            b.ty(op_root(y.args[0])).get("base") in raii:
+                        rel.add(y.point)
+                for bi in range(len(b.blocks)):
+                    tt = b.term(bi)
+                    if tt["k"] == "drop" and (tt.get("ty") or {}).get("base") in raii:
+                        rel.add(b.term_point(bi))
             r = reach(b, [Point(oke[1], 0)], avoid=rel)
             leaks = [rp for rp in return_points(b) if rp in r]
             ok = masked and not leaks and stale_root is None
